@@ -7,6 +7,13 @@ package main
 // Ghost trace of the command: has the target been started; did an earlier step fail.
 //@ global ran ghost:Bool
 //@ global failed ghost:Bool
+//@ global buf ghost:String
+//@ global disk ghost:String
+//@ global tmp ghost:String
+//@ global written ghost:String
+//@ global dump ghost:String
+//@ global wfile ghost:String
+//@ global cachePath ghost:String
 // ghost kernel state of the loader (spec/kernel.spec), shared with package seccomp's contracts
 //@ global cur ghost:Int
 //@ global anycur ghost:Int
@@ -34,16 +41,8 @@ package main
 //@ extern func (c *ucfg.Config) Unpack(to interface{}, options ...ucfg.Option) error
 //@   modifies to
 //@   ensures result == nil ==> forall(i, 0, len(to.Seccomp.Syscalls), to.Seccomp.Syscalls[i].arch == nil)
-//@ extern func exec.Command(name string, arg ...string) *exec.Cmd
-//@   ensures result != nil
-// starting the target
-//@ extern func (c *exec.Cmd) Run() error
-//@   modifies ghost.ran
-//@   ensures ghost.ran
 //@ extern func flag.StringVar(p *string, name string, value string, usage string)
 //@ extern func flag.BoolVar(p *bool, name string, value bool, usage string)
-//@ extern func flag.Parse()
-//@ extern func flag.Args() []string
 
 //@ func parsePolicy() (*seccomp.Policy, error)   properties C15
 //@   ensures @result {C15} result1 == nil ==> result0 != nil && forall(i, 0, len(result0.Syscalls), result0.Syscalls[i].arch == nil)
@@ -51,7 +50,7 @@ package main
 
 //@ func main()   properties C15
 //@   requires !ghost.ran && !ghost.failed && ghost.att == noThreads
-//@   modifies ghost.att, ghost.nseccomp, ghost.kop, ghost.kflags, ghost.ka3, ghost.strict, ghost.nnp, ghost.nprctl, ghost.locked, ghost.cur, ghost.anycur, ghost.ran, ghost.failed
+//@   modifies ghost.att, ghost.nseccomp, ghost.kop, ghost.kflags, ghost.ka3, ghost.strict, ghost.nnp, ghost.nprctl, ghost.locked, ghost.cur, ghost.anycur, ghost.ran, ghost.failed, ghost.buf, ghost.disk, ghost.tmp, ghost.written
 //@   ghost ghost.failed = ghost.failed || len(args) == 0 at after assign args#1
 //@   ghost ghost.failed = ghost.failed || err != nil at after assign policy#1
 //@   ghost ghost.failed = ghost.failed || err != nil at after assign err#1
